@@ -5,16 +5,23 @@ A candidate is kept only while it still fails with the same violation *class*
 machine's pure `execute(desc)`, so shrinking never touches a PRNG.
 """
 import copy
+import time
 
 
 class Budget:
+  """Bounded number of executions AND bounded wall time (parent-side clock:
+  it only decides when shrinking stops, never what a run does)."""
 
-  def __init__(self, n):
+  def __init__(self, n, seconds=None):
     self.left = n
     self.used = 0
+    self.deadline = None if seconds is None else time.time() + seconds
 
   def take(self):
     if self.left <= 0:
+      return False
+    if self.deadline is not None and time.time() > self.deadline:
+      self.left = 0
       return False
     self.left -= 1
     self.used += 1
@@ -62,9 +69,9 @@ def ddmin_ops(machine, desc, target_cls, budget):
   return desc
 
 
-def shrink(machine, desc, target_cls, max_execs=300):
+def shrink(machine, desc, target_cls, max_execs=300, max_seconds=None):
   """Returns (minimised description, executions used)."""
-  budget = Budget(max_execs)
+  budget = Budget(max_execs, max_seconds)
   desc = machine.normalize(desc)
   # Cut everything after the failing step first: it is cheap and always valid.
   try:
